@@ -107,7 +107,7 @@ func IterateImportedDecls(imprt *ImportStmt, fun func(name string, decl Declarat
 			sort.Slice(decls, func(i, j int) bool {
 				start := decls[i].GetRange().Start
 				startj := decls[j].GetRange().Start
-				return start.Line < startj.Line || start.Column < startj.Column
+				return start.IsBefore(startj)
 			})
 
 			for _, decl := range decls {
